@@ -1,6 +1,6 @@
 (* Props/C03.v — every successfully encoded frame is a single well-formed frame. *)
 Require Import Coq.Strings.String.
-Require Import Base.Bytes Wire.Layout Wire.Customs Wire.LayoutProofs Wire.CustomProofs Wire.Packet Wire.PacketProofs.
+Require Import Base.Bytes Wire.Layout Wire.Customs Wire.LayoutProofs Wire.CustomProofs Wire.Packet Wire.PacketChecks Wire.PacketProofs.
 Require Import Gen.Packets Net.Frame Net.FrameProofs.
 Local Open Scope N_scope.
 
